@@ -315,8 +315,8 @@ Qed.
 Definition exl_hist : list (lrop N N) := [RLint exl_doc; RSetCfg 129%N; RLint ex_doc2; RLint exl_doc].
 Lemma exl_hist_ok : rhist_ok N N exl_hist.
 Proof.
-  cbn [rhist_ok exl_hist]. repeat split; intros ts sp Hin Ho; cbn in Hin;
-  repeat (destruct Hin as [<-|Hin]; [vm_compute in Ho; injection Ho as <-; cbn; lia|]); destruct Hin.
+  cbn [rhist_ok exl_hist]. split; [|split; [|split; [|exact I]]]; intros ts Hin; cbn in Hin;
+  repeat (destruct Hin as [<-|Hin]; [split; [repeat constructor; cbn; lia|intros sp Ho; vm_compute in Ho; injection Ho as <-; cbn; lia]|]); destruct Hin.
 Qed.
 Example exl_history_nonvacuous :
   wrules_ok N [(7%N, ex_wrule)] /\ prules_ok N [(0%N, ex_prule)] /\ rhist_ok N N exl_hist /\
